@@ -30,10 +30,18 @@ def gen_script(d, specs, dialect, weights=None, list_heavy=False, unresolved=Tru
             if k == 'filter-acc':
                 # extends the current filter (no reset): alternatives and/or exclusions made of simple atoms
                 alts = [d.choice(simple) for _ in range(d.int(0, 2))]
+                if d.chance(0.15):
+                    # an alternative that selects everything: earlier alternatives stop mattering, earlier exclusions stay
+                    alts.insert(d.int(0, len(alts)), d.choice(['*', '*.*', '*', '* . *']))
                 excl = [d.choice(simple) for _ in range(d.int(0 if alts else 1, 1))]
                 t = (', '.join(alts) + (' ! ' + ', '.join(excl) if excl else '')).strip()
                 items.append(['cmd', 'filter ' + t, None, dict(alts=alts, excl=excl)])
                 last_acc.append(t)
+                if d.chance(0.25) and not any('*' in a for a in alts):
+                    # ... and then extended by a list with an alternative that selects everything (the exclusions so far stay)
+                    alts2 = [d.choice(['*', '*.*', '* . *'])] + [d.choice(simple) for _ in range(d.int(0, 1))]
+                    excl2 = [d.choice(simple) for _ in range(d.int(0, 1))]
+                    items.append(['cmd', 'filter ' + ', '.join(alts2) + (' ! ' + ', '.join(excl2) if excl2 else ''), None, dict(alts=alts2, excl=excl2)])
                 continue
             if k == 'filter':
                 items.append(['cmd', d.choice(['filter !', 'f !', 'filter  !'])])
@@ -143,7 +151,8 @@ class Walker:
         if self.filter_never:
             return False
         if self.opaque:
-            return self.filter.matches(m)
+            # a fresh instance per message: the expectation is a function of (expression, message) only
+            return self.parse(self.filter_text).matches(m) if self.filter_text not in (None, '!') else self.filter.matches(m)
         return self.acc.expect(self.acc_parsed, m)
 
     def on_cmd_state(self, text, meta=None):
